@@ -35,6 +35,9 @@ META_DIR = {
                b"Name=A Web Link\nType=h\nPath=URL:http://example.com/x?y=1&z\nHost=+\nPort=+\n\n"
                b"Name=Relative\nType=0\nPath=c/x.txt\nHost=+\nPort=+\n\n"
                b"Name=Write to us\nType=h\nPath=URL:mailto:admin@example.com\nHost=+\nPort=+\n\n"
+               b"Name=Nothing after the colon\nType=h\nPath=URL:\nHost=+\nPort=+\n\n"
+               b"Name=Remote search\nType=7\nPath=/v2/vs\nHost=search.example\nPort=70\n\n"
+               b"Name=Remote search other port\nType=7\nPath=/find\nHost=search.example\nPort=7070\n\n"
                b"Name=News\nType=h\nPath=/URL:news:comp.infosystems.gopher\nHost=+\nPort=+\n\n"
                b"Name=Find\nType=7\nPath=/f_files/plain.txt\nHost=+\nPort=+\n\n"
                b"Name=Other Daemon\nType=1\nPath=/archive\nPort=7071\n\n"
@@ -44,7 +47,7 @@ META_DIR = {
 GM_DIR = {
     b"gophermap": b"Welcome & <hello>\n\n0Local file\tlocal.txt\n1Root\t/\n0Abs\t/target.txt\nhWeb\tURL:http://example.com/\n"
                   b"1Remote\t/x\tremote.example\t7070\n0RemoteDefPort\t/y\tremote.example\n7Search\t/target.txt\n0NoSel\n iLooksLikeInfo\tx\n"
-                  b"1OtherDaemon\t/archive\t\t7071\nhMail\tURL:mailto:admin@example.com\nhPhone\t/URL:tel:+15550100\n",
+                  b"1OtherDaemon\t/archive\t\t7071\n7Remote search\t/v2/vs\tsearch.example\t70\n7Remote search 2\t/find\tsearch.example\t7070\nhMail\tURL:mailto:admin@example.com\nhPhone\t/URL:tel:+15550100\n",
     b"local.txt": b"local\n",
 }
 
